@@ -19,7 +19,7 @@ from ..gen import rtl as G
 
 PID = "C03"
 
-_MANIFEST_NOT_READY = MANIFEST_ = {
+MANIFEST = MANIFEST_ = {
     "category": "other",
     "technique": "Coq proofs of the pass contracts over a statement-list model (frame laws proved for the µRTL reference) + "
                  "differential runs of the real simulator under optimisation-toggle sets against the extracted reference",
@@ -132,7 +132,7 @@ def gen_cases(rng, tier):
     pool = [c for c in c02.pool_cases() if c[4] == "ok"]
     shapes = [c for c in pool if c[2].split(":")[2].startswith("shape")]
     others = [c for c in pool if not c[2].split(":")[2].startswith("shape")]
-    ns, no = (9, 5) if tier == "quick" else (len(shapes), 60)
+    ns, no = (5, 2) if tier == "quick" else (len(shapes), 60)
     pick = rng.sample(shapes, min(ns, len(shapes))) + rng.sample(others, min(no, len(others)))
     out = [(m, st, "shape:%s:%s" % (tag.split(":")[2].replace("shape-", ""), tag.split(":")[1]) if "shape" in tag else "gen:" + tag.split(":")[1])
            for (m, st, tag, _, _) in pick]
@@ -161,7 +161,7 @@ def run_all(binary, refbin, cases, sets, engines):
         for e in engines:
             configs["%s|%s" % (sname, e)] = (S.ENGINES[e], env_of(flipped))
     res = S.run_matrix(binary, simcases, configs, nshards=1)
-    ref = R.ref_eval(refbin, [(m, st, "2") for m, st, _ in cases])
+    ref = R.ref_eval(refbin, [(m, st, "2u") for m, st, _ in cases])
     return res, ref
 
 
@@ -293,7 +293,7 @@ def run(tier, seed, replay):
     for i, k, w, d in orac + corr:
         m, stim, tag = cases[i]
         rk = (k, (d.get("configs") or ["", d.get("config", "")])[1])
-        if rk in reported or len(reported) >= 6:
+        if rk in reported or len(reported) >= 12:
             continue
         reported.add(rk)
         # name the responsible toggle(s): which single flips reproduce the difference against all_on
